@@ -6,7 +6,7 @@ import time
 import z3
 
 from . import loader, envmodels, symcoll, textsym, numkernel
-from .common import Report
+from .common import Report, guarded, merge_part
 from .db import db
 from .explorer import explore, prove, satisfiable, Unsupported, EX
 from .proxies import (SymInt, SymFloat, SymOpt, SymBool, SymBytes, summarize, truth, ev, merge_paths,
@@ -197,6 +197,7 @@ def canon_prove(claim, assumptions, fvar, label, timeout_ms=60000):
 _G = {}
 
 
+@guarded
 def _defs_worker(idxs):
     """check a subset of definitions (runs in a forked worker); returns picklable partial results"""
     from . import explorer
@@ -277,6 +278,7 @@ def _defs_worker(idxs):
                 samples=rep.samples, stats=explorer.STATS)
 
 
+@guarded
 def _sig_worker(item):
     from . import explorer
     explorer.STATS.__init__()
